@@ -24,13 +24,14 @@ for (pid,x),c in sorted(confirm.items()):
     shutil.copy(f'{src}/NOTES.md', f'{dst}/NOTES.md')
     det={}
     for chk in [pid]+extra.get((pid,x),[]):
-        assert subprocess.run(['git','-C','/repo','status','--porcelain'],capture_output=True,text=True).stdout=='' , '/repo dirty'
-        subprocess.run(['git','-C','/repo','apply',f'{dst}/patch.diff'],check=True)
+        # a scratch worktree of /repo HEAD carries the change; /repo itself is not touched
+        wt=f'/tmp/wt-store-{sid}-{os.getpid()}'
+        subprocess.run(['git','-C','/repo','worktree','add','-q','--detach',wt,'HEAD'],check=True)
         try:
-            p=subprocess.run(['timeout','1200','/verif/check',chk,'quick'],capture_output=True,text=True,cwd='/verif')
+            subprocess.run(['git','-C',wt,'apply',f'{dst}/patch.diff'],check=True)
+            p=subprocess.run(['timeout','1200','/verif/check',chk,'quick'],capture_output=True,text=True,cwd='/verif',env=dict(os.environ,VERIF_REPO=wt))
         finally:
-            subprocess.run(['git','-C','/repo','checkout','--','.'],check=True)
-            subprocess.run(['git','-C','/repo','clean','-fdq'],check=True)
+            subprocess.run(['git','-C','/repo','worktree','remove','--force',wt])
         keys=re.findall(r'^  key=(.*?) occurrences=(\d+)', p.stdout, re.M)
         det[chk]=dict(exit=p.returncode, violation_keys=[k for k,_ in keys][:6], occurrences=sum(int(n) for _,n in keys))
         print(sid, chk, 'exit', p.returncode, [k for k,_ in keys][:2], flush=True)
